@@ -613,6 +613,8 @@ type reachDefs struct {
 	// allocs captured by a closure: their content may change at any call
 	captured map[*ssa.Alloc]bool
 	loopHits int
+	cnt      map[rdKey]*Expr
+	cntBusy  map[rdKey]bool
 }
 
 type rdDef struct {
@@ -736,6 +738,9 @@ func (rd *reachDefs) at(at ssa.Instruction, a ssa.Value, path []int) *Expr {
 
 // scan looks backwards from (blk, idx) for the definition of the cell.
 func (rd *reachDefs) scan(blk *ssa.BasicBlock, idx int, a ssa.Value, path []int) *Expr {
+	if cnt := rd.cellCounterMemo(a, path); cnt != nil {
+		return cnt
+	}
 	cellT := cellType(a, path)
 	for i := idx - 1; i >= 0; i-- {
 		in := blk.Instrs[i]
@@ -1977,4 +1982,92 @@ func UnrollLists(e *Expr) *Expr {
 		return mkPhi(args)
 	}
 	return &ne
+}
+
+// cellCounter recognises a counter kept in a memory cell (a local, or a field of a local struct: `count.accepts++`
+// under a condition inside a loop): the cell starts at zero, and its only other definition is cell = cell + 1 in a
+// block entered on one edge of a condition. It is described like a register counter: counter(cond).
+func (rd *reachDefs) cellCounterMemo(a ssa.Value, path []int) *Expr {
+	if rd.cnt == nil {
+		rd.cnt = map[rdKey]*Expr{}
+		rd.cntBusy = map[rdKey]bool{}
+	}
+	k := rdKey{nil, a, pathKey(path)}
+	if e, ok := rd.cnt[k]; ok {
+		return e
+	}
+	if rd.cntBusy[k] {
+		return nil
+	}
+	rd.cntBusy[k] = true
+	e := rd.cellCounter(a, path)
+	delete(rd.cntBusy, k)
+	rd.cnt[k] = e
+	return e
+}
+
+func (rd *reachDefs) cellCounter(a ssa.Value, path []int) *Expr {
+	al, ok := a.(*ssa.Alloc)
+	if !ok || !isNumeric(cellTypeOf(a, path)) {
+		return nil
+	}
+	var inc *ssa.Store
+	for _, d := range rd.defs[al] {
+		if d.esc != nil {
+			return nil
+		}
+		switch {
+		case pathKey(d.path) == pathKey(path):
+			if c, ok := d.val.(*ssa.Const); ok {
+				if n, ok := constInt(c); ok && n == 0 {
+					continue
+				}
+				return nil
+			}
+			bo, ok := d.val.(*ssa.BinOp)
+			if !ok || bo.Op != token.ADD || inc != nil {
+				return nil
+			}
+			c, ok := bo.Y.(*ssa.Const)
+			if !ok {
+				return nil
+			}
+			if n, ok := constInt(c); !ok || n != 1 {
+				return nil
+			}
+			ld, ok := bo.X.(*ssa.UnOp)
+			if !ok || ld.Op != token.MUL {
+				return nil
+			}
+			r2, p2 := addrPath(ld.X)
+			if r2 != ssa.Value(al) || pathKey(p2) != pathKey(path) {
+				return nil
+			}
+			inc = d.in.(*ssa.Store)
+		case hasPrefix(path, d.path):
+			// an enclosing cell written as a whole: only the zero value keeps the pattern
+			if c, ok := d.val.(*ssa.Const); !ok || c.Value != nil {
+				return nil
+			}
+		case hasPrefix(d.path, path):
+			return nil
+		}
+	}
+	if inc == nil {
+		return nil
+	}
+	blk := inc.Block()
+	if len(blk.Preds) != 1 {
+		return nil
+	}
+	pred := blk.Preds[0]
+	iff, ok := pred.Instrs[len(pred.Instrs)-1].(*ssa.If)
+	if !ok {
+		return nil
+	}
+	pol := "true"
+	if pred.Succs[0] != blk {
+		pol = "false"
+	}
+	return &Expr{Op: "counter", Name: pol, Args: []*Expr{rd.b.expr(iff.Cond)}}
 }
